@@ -488,6 +488,11 @@ func (fr *Frame) indexAddr(x *ssa.IndexAddr) Value {
 	base = it.rd(base)
 	i, ok := it.constInt(iv)
 	if !ok {
+		if v, split := it.splitIndex(fr, iv, x.Pos()); split {
+			i, ok = v, true
+		}
+	}
+	if !ok {
 		if sel, isSel := fr.selectElem(base, iv); isSel {
 			if t, isTop := iv.(Top); isTop && t.Taint {
 				it.event("tainted-select", fr.fn, x.Pos(), "an element is selected by a secret index")
@@ -719,6 +724,76 @@ func (it *Interp) applyBind(v Value) Value {
 		return v
 	}
 	return it.applyAssume(v)
+}
+
+// splitIndex turns an index that is a symbolic input quantity of small range (a length used to index a dispatch
+// table) into a path constant: one path per value, decided through the exploration oracle like a chain of equality
+// tests. Only outside joined branches and loops.
+func (it *Interp) splitIndex(fr *Frame, iv Value, pos token.Pos) (int, bool) {
+	if it.oracle == nil || it.Cfg.JoinAll || fr.inLoop || len(it.joining) > 0 && it.anyJoining() {
+		return 0, false
+	}
+	tv, ok := iv.(TermV)
+	if !ok {
+		return 0, false
+	}
+	t := it.ApplyTerm(tv.T)
+	a := t.SingleAtom()
+	if a == nil || a.Kind != ISym || len(t.mons) != 1 {
+		return 0, false
+	}
+	for _, m := range t.mons {
+		if m.c.Cmp(bigOne) != 0 || len(m.preds) > 0 {
+			return 0, false
+		}
+	}
+	if !strings.HasPrefix(BaseSym(a).Name, "len(") {
+		return 0, false
+	}
+	lo, hi := a.Lo, a.Hi
+	if !lo.IsInt64() || !hi.IsInt64() || hi.Int64()-lo.Int64() > 127 || lo.Sign() < 0 {
+		return 0, false
+	}
+	o := it.oracle
+	for v := lo.Int64(); v < hi.Int64(); v++ {
+		cur := it.ApplyTerm(tv.T)
+		if k, isC := cur.IsConst(); isC {
+			return int(k.Int64()), true
+		}
+		eq := EQ(cur, TInt(v))
+		if k, isC := eq.IsConst(); isC {
+			if k.Sign() != 0 {
+				return int(v), true
+			}
+			continue
+		}
+		var d bool
+		if o.pos < len(o.dec) {
+			d = o.dec[o.pos]
+		} else {
+			d = true
+			o.dec = append(o.dec, true)
+		}
+		o.pos++
+		it.Guards = append(it.Guards, Guard{Cond: eq, Taken: d, Fn: fr.fn, Pos: pos})
+		it.assumeTerm(eq, d)
+		if d {
+			return int(v), true
+		}
+	}
+	if k, isC := it.ApplyTerm(tv.T).IsConst(); isC {
+		return int(k.Int64()), true
+	}
+	return int(hi.Int64()), true
+}
+
+func (it *Interp) anyJoining() bool {
+	for _, n := range it.joining {
+		if n > 0 {
+			return true
+		}
+	}
+	return false
 }
 
 // selectElem resolves base[iv] for an index that is not a constant: the element cells of a small array (at most 16
